@@ -702,3 +702,40 @@ func (e *Engine) assumeTypeInv(st *State, v Val) {
 		e.assume(st.cond, g)
 	}
 }
+
+// siteReturn: assert@return #k (k-th return statement in source order, or *) with $ret0.. bound to the returned values.
+func (e *Engine) siteReturn(f *Frame, st *State, in *ssa.Return, vals []Val) {
+	if e.C == nil || len(e.C.Sites) == 0 {
+		return
+	}
+	// ordinal by source position
+	var rets []*ssa.Return
+	for _, b := range f.fn.Blocks {
+		for _, x := range b.Instrs {
+			if r, ok := x.(*ssa.Return); ok {
+				rets = append(rets, r)
+			}
+		}
+	}
+	ord := 1
+	for _, r := range rets {
+		if r != in && r.Pos() < in.Pos() {
+			ord++
+		}
+	}
+	for i := range e.C.Sites {
+		sc := &e.C.Sites[i]
+		if sc.Kind != "assert" {
+			continue
+		}
+		if !e.siteMatch(sc.Site, "return", "", ord) && sc.Site != fmt.Sprintf("return #%d", ord) && sc.Site != "return #*" && sc.Site != fmt.Sprintf("return#%d", ord) && sc.Site != "return#*" {
+			continue
+		}
+		e.siteHit[sc.Site]++
+		ctx := e.siteCtx(f, st)
+		for k, v := range vals {
+			ctx.binds[fmt.Sprintf("$ret%d", k)] = v
+		}
+		e.siteEval(f, st, sc, ctx, in.Pos(), fmt.Sprintf("return #%d", ord))
+	}
+}
